@@ -517,6 +517,16 @@ func (c *simConn) Write(b []byte) (int, error) {
 			tx.writeFailed = true
 			tx.writes[len(tx.writes)-1].ok = false
 		}
+		if !c.closed && e.r.Pct(35, "late-write-failure") {
+			// the datagram went out (the server sees it and may answer) but the
+			// connection reports an error afterwards
+			e.stats["fault_write_error_after_send"]++
+			e.r.Logf("write: sent, failure reported late")
+			e.serve(data)
+			verifrt.Yield(hsWrite)
+			verifrt.Yield(hsWrite)
+			return len(b), errInjWrite
+		}
 		e.r.Logf("write: injected failure")
 		return 0, errInjWrite
 	}
@@ -1170,6 +1180,9 @@ func (e *clientEngine) startTx(tk *verifrt.Task, kind cTxKind, reuse *cTx) {
 	if kind == txDo && err == nil && len(tx.calls) != 1 {
 		e.fail(tx, "C10", "do-returned-without-callback", "%s returned nil but its callback was invoked %d times", tx.name(), len(tx.calls))
 	}
+	if kind == txDo && err == nil && !tx.doCbDone {
+		e.fail(tx, "C10", "do-returned-before-callback-finished", "%s returned while its callback was still running", tx.name())
+	}
 	if tx.afterClose {
 		if !errors.Is(err, stun.ErrClientClosed) {
 			e.fail(tx, "C15", "call-after-close", "%s began after Close returned and returned %v instead of ErrClientClosed", tx.name(), err)
@@ -1397,6 +1410,9 @@ func (e *clientEngine) Setup(r *Run) {
 	r.Sim.MapMode = r.Choose(2, "mapmode")
 	r.StayWeight = []int{1, 3, 10, 30}[r.Choose(4, "stay")]
 	r.EnvWeight = 1
+	if r.Pct(20, "pct-policy") {
+		r.Policy = 1
+	}
 	// per-run subset of honoured yield sites
 	dens := []int{100, 100, 50, 20}[r.Choose(4, "yield-density")]
 	if e.marathon {
